@@ -93,6 +93,8 @@ func (e *Ev) evGhostCall(x *ast.CallExpr) Val {
 			return VBool{fmt.Sprintf("(forall ((%s Int)) %s)", kn, sImp(rng, body))}
 		}
 		return VBool{fmt.Sprintf("(exists ((%s Int)) %s)", kn, sAnd(rng, body))}
+	case "same":
+		return VBool{e.sameVal(arg(0), arg(1), x)}
 	case "sameview":
 		a, ok1 := arg(0).(VStr)
 		b, ok2 := arg(1).(VStr)
@@ -390,5 +392,71 @@ func (p *Prog) specFuncDef(sf *SpecFunc) (def string, uses map[string]bool, lang
 		kw = "define-fun-rec"
 	}
 	delete(fx.specUsed, sf.Name)
+	hasStr := false
+	for _, pa := range sf.Params {
+		if pa.Type == "str" {
+			hasStr = true
+		}
+	}
+	if hasStr && !sf.Rec && !strings.Contains(body, "(forall ") && !strings.Contains(body, "(exists ") {
+		// opaque encoding: the application itself is the trigger of quantifiers over positions
+		var sorts, names []string
+		for _, pa := range sf.Params {
+			if pa.Type == "str" {
+				sorts = append(sorts, sortArr, sortInt, sortInt)
+				names = append(names, pa.Name+"_b", pa.Name+"_o", pa.Name+"_l")
+				continue
+			}
+			sorts = append(sorts, specSort(pa.Type))
+			names = append(names, pa.Name)
+		}
+		app := "(" + sf.Name + " " + strings.Join(names, " ") + ")"
+		p.rxMu.Lock()
+		if p.opaqueDefs == nil {
+			p.opaqueDefs = map[string]string{}
+		}
+		p.opaqueDefs[sf.Name] = body
+		p.rxMu.Unlock()
+		def := fmt.Sprintf("(declare-fun %s (%s) %s)\n(assert (forall (%s) (! (= %s %s) :pattern (%s))))", sf.Name, strings.Join(sorts, " "), specSort(sf.Ret), strings.Join(ps, " "), app, body, app)
+		return def, fx.specUsed, fx.langsUsed, fx.useSeq
+	}
 	return fmt.Sprintf("(%s %s %s %s)", kw, sf.Name, sig, body), fx.specUsed, fx.langsUsed, fx.useSeq
+}
+
+// sameVal: structural equality (strings by contents, []string by identity of the slice value).
+func (e *Ev) sameVal(a, b Val, n ast.Node) Term {
+	switch x := a.(type) {
+	case VInt:
+		return sEq(x.T, b.(VInt).T)
+	case VBool:
+		return sEq(x.T, b.(VBool).T)
+	case VErr:
+		switch y := b.(type) {
+		case VErr:
+			return sEq(x.T, y.T)
+		case VNil:
+			return sEq(x.T, "0")
+		}
+	case VStr:
+		return e.strEq(x, b.(VStr))
+	case VStrs:
+		y := b.(VStrs)
+		return sAnd(sEq(x.N, y.N), sOr(sEq(x.N, "0"), sAnd(sEq(x.B, y.B), sEq(x.O, y.O), sEq(x.L, y.L))))
+	case VStruct:
+		y, ok := b.(VStruct)
+		if !ok {
+			break
+		}
+		var cs []Term
+		for _, f := range x.Names {
+			cs = append(cs, e.sameVal(x.F[f], y.F[f], n))
+		}
+		return sAnd(cs...)
+	case VRef:
+		return sEq(x.T, b.(VRef).T)
+	case VOpaque:
+		return "true"
+	}
+	e.unsupp(n, "same() over %T and %T", a, b)
+	return ""
 }
